@@ -4,10 +4,8 @@ import (
 	"bytes"
 	"fmt"
 	"log"
-	"runtime"
 	"sort"
 	"strings"
-	"sync"
 
 	sdk "github.com/cosmos/cosmos-sdk/types"
 	"github.com/ethereum/go-ethereum/common"
@@ -53,30 +51,12 @@ func TurnOffLiquidVesting(ctx sdk.Context, bk bankkeeper.Keeper, lk liquidvestin
 	// Updated vesting accounts
 	updatedVestingAccounts := make([]haqqvestingtypes.ClawbackVestingAccount, 0)
 
-	// Collect all reedem messages
-	var wg sync.WaitGroup
-	accChan := make(chan authtypes.AccountI, 100)
-	worker := func() {
-		defer wg.Done()
-		for acc := range accChan {
-			tryFoundFixScheduleForVestingAccount(acc, &updatedVestingAccounts)
-			processAccount(ctx, acc, storageMap, &redeemsVector)
-		}
-	}
-
-	numWorkers := runtime.NumCPU()*2 - 1 // Use all available CPUs for parallel processing
-	wg.Add(numWorkers)
-	for i := 0; i < numWorkers; i++ {
-		go worker()
-	}
-
+	// Collect all reedem messages (sequentially, in store iteration order)
 	ak.IterateAccounts(ctx, func(acc authtypes.AccountI) (stop bool) {
-		accChan <- acc
+		tryFoundFixScheduleForVestingAccount(acc, &updatedVestingAccounts)
+		processAccount(ctx, acc, storageMap, &redeemsVector)
 		return false
 	})
-	close(accChan)
-
-	wg.Wait()
 
 	// Sort fixed vesting accounts vector to ensure determinism
 	sort.Slice(updatedVestingAccounts, func(i, j int) bool {
